@@ -4,7 +4,7 @@
 From Coq Require Import Permutation.
 From CR Require Import Base Atomic Machine LinksFacts HeapFacts TraceFacts TraceTotal Local StackBound
   Termination Perm StdRc StdRefine Tokens InvDef InvLemmas ActBase ActHandles ActAdopt ActMove ActConsume
-  StepFrames StepPanic Purge GroupOps DropDec Group DropLast StepInv RunInv Consequences Common.
+  StepFrames StepPanic Purge GroupOps DropDec Group DropLast StepInv RunInv Consequences PidInv Common.
 Local Open Scope N_scope.
 
 (** Full statement. For every history (any length, any graph shape, any choice
@@ -75,6 +75,24 @@ Theorem C01_trace_is_closure :
     pops = (1 + sumN (map (fun x => N.of_nat (length (fwd_targets (tbl_of h x)))) R))%N.
 Proof. exact cycle_refs_spec. Qed.
 Print Assumptions C01_trace_is_closure.
+
+(** "the original, intact value": for EVERY history (disciplined or not) a box
+    whose value is still in place holds the value created for it, and a deref
+    through any handle reads that value *)
+Theorem C01_boxes_hold_their_original_value :
+  forall fuel h o b p,
+  nth_error (heap_of (fst (run_history fuel init_state h))) o = Some b ->
+  value b = Some p -> pid p = o.
+Proof. exact history_boxes_original. Qed.
+Print Assumptions C01_boxes_hold_their_original_value.
+
+Theorem C01_deref_yields_the_original_value :
+  forall s k self hr o l,
+  PidInv s k -> resolve_strong s self hr = Some (o, l) ->
+  forall b p, getb (heap_of s) o = Ok b -> value b = Some p ->
+  exec_act s self (ADeref hr) = AO s self (RNat (N.of_nat o)) [].
+Proof. exact deref_original_any. Qed.
+Print Assumptions C01_deref_yields_the_original_value.
 
 (** the hypotheses are satisfiable by a non-trivial history *)
 Theorem C01_nonvacuous : hist_ok ex_fuel init_state ex_history = true.
